@@ -17,7 +17,7 @@ THEOREMS = [
     'Pfst.C13.no_change_false', 'Pfst.C13.rounds',
     # full statements (mutual structural induction, Pfst/ReconcileCorrect.lean, ReconcileQuiet.lean, ReconcileKept.lean)
     'Pfst.C13.node_correct', 'Pfst.C13.intree_never_fails', 'Pfst.C13.children_correct', 'Pfst.C13.slice_correct',
-    'Pfst.C13.slice_correct_ast', 'Pfst.C13.trace_correct', 'Pfst.C13.rounds_correct', 'Pfst.C13.untouched_silent_full',
+    'Pfst.C13.slice_correct_ast', 'Pfst.C13.dict_correct', 'Pfst.C13.trace_correct', 'Pfst.C13.rounds_correct', 'Pfst.C13.untouched_silent_full',
     'Pfst.C13.no_change', 'Pfst.C13.no_change_ops', 'Pfst.C13.untouched_kept',
 ]
 RULE = ('corpus programs (snippets covering every node type, generated programs, layout / comment / parenthesis variants, '
@@ -58,24 +58,27 @@ TRUSTED = [
 ASSUMPTIONS = [
     'wfN (hypothesis of trace_correct / untouched_kept, decidable, Pfst/Reconcile.lean): every in-tree origin names an existing '
     'path of the marked tree whose node has the same kind and field shapes (AST classes have fixed _fields), tree ids of other '
-    'trees are != 0, list elements are not lists, NO Dict (recurse_slice_dict is outside the induction: for trees with a Dict '
-    'the conclusion is only evaluated per case, res_ok); evaluated by the driver per case (`wf`, tallied as theorem_hypothesis)',
+    'trees are != 0, list elements are not lists, the (key, value) pairs of a Dict have a key that is a node or None and a pair '
+    'origin consistent with what recurse_slice_dict reads off values[i].f / keys[i].f (the serialiser computes it that way); '
+    'evaluated by the driver per case (`wf`, tallied as theorem_hypothesis)',
     'primOK (part of wfN): Python == on the primitives compared by recurse_children coincides with identity of type and value; '
     'false in general (trace_correct_false, finding C13-F1)',
     'stillN (hypothesis of no_change / untouched_silent_full): all nodes in place, scalars == the marked ones, list fields of the '
-    'marked length holding nodes only (None / str list elements are re-put on every reconcile: no_change_false, C13-F8), no Dict',
+    'marked length holding nodes only (None / str list elements are re-put on every reconcile: no_change_false, C13-F8); Dict '
+    'pairs in place with key and value in place (None key over None key)',
     'keptN (hypothesis of untouched_kept): the ancestors of the untouched subtree are in place and recurse_children of none of '
-    'them raises (otherwise the documented retry puts the ancestor as a pure AST and the formatting below it is lost)',
+    'them raises (otherwise the documented retry puts the ancestor as a pure AST and the formatting below it is lost); no Dict '
+    'list on the path itself (statements are never inside a Dict)',
     'a copy of a verified node of another tree has the structure of that node (false when only primitives were changed there: '
     'finding C13-F2)',
 ]
 LEVEL_TEXT = ('Lean 4 theorems about an executable model of the reconcile diff, proved by mutual structural induction over the '
-              'nested tree type: for EVERY marked/edited pair without Dict meeting the decidable side condition wfN (any size, any '
-              'mix of in-place, moved, duplicated, foreign and new nodes; slices of any length with runs, insertions past the end '
-              'and tail deletions; the except -> put_node fallback) replaying the emitted operation trace on the structure of the '
+              'nested tree type: for EVERY marked/edited pair meeting the decidable side condition wfN (any size, any '
+              'mix of in-place, moved, duplicated, foreign and new nodes; slices and Dicts of any length with runs, insertions past '
+              'the end and tail deletions; the except -> put_node fallback) replaying the emitted operation trace on the structure of the '
               'marked copy yields the structure of the edited tree (trace_correct); unchanged tree => empty trace (no_change); an '
               'unchanged subtree under in-place ancestors is disjoint from the region of every operation (untouched_kept); '
-              'repeated rounds by induction. For trees with a Dict the conclusion is evaluated per case. The trace is compared '
+              'repeated rounds by induction. Outside wfN (finding F1 inputs) the conclusion is evaluated per case. The trace is compared '
               'with the real operations of reconcile() on every run.')
 LEVEL_NOTE = ('The theorems are about the model and the container laws of applyOps; the tie to /repo is differential (op traces '
               'of thousands of mutation scripts per run) plus the oracle on the real result. Text-level claims (validity, '
@@ -416,7 +419,7 @@ def _judge(ctx, results, name='reconcile trace vs Pfst.Reconcile.reconcile', sea
                     ctx.tally('real_op_raised', e['raised'].split(':')[0])
         # ---- hypotheses of the full theorems, evaluated on the real case (how much of the run the theorems cover) ----
         wf = m.get('wf')
-        ctx.tally('theorem_hypothesis', 'trace_correct: wfN ' + ('holds' if wf else 'fails' + (' (Dict)' if _has_dict(c['edited']) else ' (no Dict; mode ' + res['mode'] + ')')))
+        ctx.tally('theorem_hypothesis', 'trace_correct: wfN ' + ('holds' if wf else 'fails (mode ' + res['mode'] + (', Dict present' if _has_dict(c['edited']) else '') + ')'))
         if wf and not m.get('fail') and not m.get('res_ok', True):
             ctx.brk('proof', 'Pfst.C13.trace_correct', f'driver: wfN holds, no failure, but applyOps trace != erase edited on {key}')
         if not muts:
